@@ -14,11 +14,12 @@ class C01(FprCheck):
     rule = ("seeded conformers (all shipped SDF conformers are in the pool, plus ~60 embedded SMILES molecules chosen for "
             "planarity, linearity, symmetry, chirality, salts) x seeded option draws from the full product, each with twins: "
             "proper rotations + translations (random unit quaternions and axis-aligned quarter turns), and one reflection "
-            "when stereo is off. Non-trivial: at least two levels reached; distinct by (molecule, conformer, options, motion).")
+            "when stereo is off; plus exact translations (conformer on the 2^-20 grid, one atom on the origin, moved by a grid vector: no round-off, equality required outright). Non-trivial: at least two levels reached; distinct by (molecule, conformer, options, motion).")
 
     def gen_cases(self):
         rng = self.rng
         n = 40 if self.tier == "quick" else 700
+        yield from self.umbrella_cases()
         for ref, ci in self.sample_confs(n):
             for _ in range(2 if self.tier == "quick" else 3):
                 o = MG.gen_opts(rng)
@@ -32,8 +33,48 @@ class C01(FprCheck):
                 if not o["stereo"]:
                     self.count("reflection")
                     yield dict(base, tr=MG.gen_transform(rng, reflect=True))
+            # exact translations: the conformer snapped to the 2^-20 A grid with one heavy atom put exactly on the lab origin,
+            # against the same conformer moved by a grid vector.  Every coordinate difference is then computed exactly, so a
+            # fingerprinter that only reads differences performs bit-identical arithmetic: no round-off band exists and the
+            # two answers must be equal outright (no perturbation filter).
+            o = MG.gen_opts(rng)
+            o["stereo"] = True
+            at = rng.randrange(64)
+            b0 = {"t": "exact", "ref": ref, "conf": ci, "tr": {"quant": 20, "origin_atom": at}, "opts": o, "queries": MG.gen_queries(rng, o, 2)}
+            self.count("exact-base-atom-on-origin")
+            yield b0
+            self.count("exact-translation")
+            yield dict(b0, tr={"quant": 20, "origin_atom": at, "t": [rng.randrange(-2 ** 24, 2 ** 24) / 2.0 ** 20 for _ in range(3)]})
+
+    def umbrella_cases(self):
+        """every synthetic AX_k conformer (mean neighbour vector 0.03-0.3 A around the 0.1 A guard of pick_y), default options
+        with stereo on, against twins whose cone axis lies on a cube diagonal (where the components of the mean are smallest)"""
+        rng = self.rng
+        for ref in MG.all_refs():
+            if "umbrella" not in ref:
+                continue
+            o = MG.gen_opts(rng)
+            o.update(stereo=True, radius_multiplier=1.718, level=rng.choice([1, 2, 5]))
+            base = {"t": "twin", "ref": ref, "conf": 0, "tr": None, "opts": o, "queries": MG.gen_queries(rng, o, 1)}
+            self.count("umbrella-base")
+            yield base
+            for _ in range(2 if self.tier == "quick" else 6):
+                self.count("umbrella-diagonal-rotation")
+                yield dict(base, tr=MG.gen_transform(rng, kind="diagonal"))
 
     def prop(self, case):
+        if case.get("t") == "exact":
+            if "t" not in case["tr"]:
+                return None
+            m0, c0 = build(dict(case, tr={k: v for k, v in case["tr"].items() if k != "t"}))
+            m1, c1 = build(case)
+            a = MG.run_impl(m0, c0, case["opts"], case.get("queries", []))
+            b = MG.run_impl(m1, c1, case["opts"], case.get("queries", []))
+            if a != b:
+                return {"key": "exact-translation-changes-fingerprint",
+                        "what": "conformer on the 2^-20 grid with a heavy atom on the origin vs the same moved by a grid vector (all differences exact): %s vs %s" % (
+                            vlib.short(a, 120), vlib.short(b, 120))}
+            return None
         if not case.get("tr"):
             return None
         base_case = dict(case, tr=None)
